@@ -133,7 +133,7 @@ func genEncCmd(t *rapid.T) kit.Cmd {
 }
 
 func TestEncoding(t *testing.T) {
-	kit.Check(t, kit.Spec[EncCase]{Sub: "enc", Quick: 600, Thorough: 20000,
+	kit.Check(t, kit.Spec[EncCase]{Sub: "enc", Quick: 600, Thorough: 60000,
 		Gen: func(t *rapid.T) EncCase {
 			c := EncCase{Args: genEncCmd(t)}
 			for i := rapid.IntRange(0, 3).Draw(t, "more"); i > 0; i-- {
@@ -531,7 +531,7 @@ func execDiff(c Case) kit.Outcome {
 
 func TestDifferential(t *testing.T) {
 	defer stopAll()
-	kit.Check(t, kit.Spec[Case]{Sub: "diff", Quick: 60, Thorough: 900, Gen: genCase, Exec: execDiff})
+	kit.Check(t, kit.Spec[Case]{Sub: "diff", Quick: 60, Thorough: 2500, Gen: genCase, Exec: execDiff})
 }
 
 func TestReplay(t *testing.T) {
